@@ -204,6 +204,15 @@ func VH_C18_flowDefault() {
 	n := c18Node(act)
 	after := &vSimpleNode{act: "end"}
 	flow := NewFlow(n)
+	if vNondet[bool]("defaultEdgeAddedAfterAFirstRun") {
+		// the flow has already run (with another connection on the node) when the default
+		// connection is made: it is followed by the next run all the same
+		flow.Connect(n, "other", &vSimpleNode{act: "end"})
+		if flow.Run(vNewCtx(), NewSharedStore()) != nil {
+			return
+		}
+		vCover("default-edge-added-after-a-first-run")
+	}
 	flow.Connect(n, DefaultAction, after)
 	err := flow.Run(vNewCtx(), NewSharedStore())
 	if err != nil {
